@@ -365,11 +365,36 @@ Definition cl_paths (P : params) (c : cache) : list path :=
   [pth P KM (last_epoch c); pth P KO (last_epoch c);
    pth P KM (best_epoch (bt P) c); pth P KO (best_epoch (bt P) c)].
 
+(* the two translated methods on a controller whose cache is [c] (also the names Properties.v uses:
+   string literals do not parse there) *)
+Definition run_epoch_block (P : params) (d : disk) (cn : nat) (ro : list path) (vars : list (string * val)) :=
+  Interp.run (ext16 P d cn ro) ufe_epoch vars.
+Definition run_best_epoch (P : params) (d : disk) (cn : nat) (ro : list path) (c : cache) (b : bool) :=
+  Interp.run (ext_base P d cn ro) tsc_get_best_epoch [("self", self_of P c); ("train_met", VBool b)].
+Definition run_last_epoch (P : params) (d : disk) (cn : nat) (ro : list path) (c : cache) :=
+  Interp.run (ext_base P d cn ro) tsc_get_last_epoch [("self", self_of P c)].
+
+Definition nat_result (o : Interp.outcome val) : option nat :=
+  match o with
+  | Ok (VInt z) _ => if Z.leb 0 z then Some (Z.to_nat z) else None
+  | _ => None
+  end.
+
+(* Model.observe with get_last_epoch / get_best_epoch of the fresh controller interpreted from the source *)
+Definition src_observe (P : params) (d : disk) (oc : Model.outcome) (lg : list logent) : option obs :=
+  let c := read_cache (csv d) in
+  match nat_result (run_last_epoch P d 0 [] c), nat_result (run_best_epoch P d 0 [] c (bt P)) with
+  | Some l, Some b =>
+      Some (mkObs oc (csv d) l b (map (fun e => (e, load P d e)) (seq 1 l)) (ckpts d) (ntmp d) lg)
+  | _, _ => None
+  end.
+
 (* ---- whole runs (correspondence entry point) --------------------------------------------------
    Model.seg / start / run_schedule / run with the update function as a parameter; [None] = the
    update function got stuck. *)
 Section Runs.
   Variable upd : disk -> cache -> Z -> Z -> nat -> Z -> list path -> option (option (list fsop * row)).
+  Variable obsf : params -> disk -> Model.outcome -> list logent -> option obs.
   Variable P : params.
   Variable E : env.
 
@@ -403,15 +428,16 @@ Section Runs.
   Fixpoint run_schedule_with (d : disk) (cn : nat) (crashes : list nat) : option (list obs) :=
     match crashes with
     | [] => match start_with d cn None with
-            | Some (d', _, oc, lg) => Some [observe P d' oc lg]
+            | Some (d', _, oc, lg) => option_map (fun o => [o]) (obsf P d' oc lg)
             | None => None
             end
     | b :: more =>
         match start_with d cn (Some b) with
         | Some (d', cn', oc, lg) =>
-            match oc with
-            | Crashed => option_map (cons (observe P d' oc lg)) (run_schedule_with d' cn' more)
-            | _ => Some [observe P d' oc lg]
+            match obsf P d' oc lg, oc with
+            | Some o, Crashed => option_map (cons o) (run_schedule_with d' cn' more)
+            | Some o, _ => Some [o]
+            | None, _ => None
             end
         | None => None
         end
@@ -420,7 +446,7 @@ End Runs.
 
 Definition src_run (P : params) (metrics : list (Z * Z)) (ros : list (list path)) (crashes : list nat)
   : option (list obs) :=
-  run_schedule_with (src_update_ops P) P (mkEnv metrics pv_count (ro_of ros)) empty_disk 0 crashes.
+  run_schedule_with (src_update_ops P) src_observe P (mkEnv metrics pv_count (ro_of ros)) empty_disk 0 crashes.
 
 Definition src_check (P : params) (metrics : list (Z * Z)) (ros : list (list path)) (crashes : list nat)
   (impl : list obs) : bool :=
@@ -433,10 +459,3 @@ Definition src_check (P : params) (metrics : list (Z * Z)) (ros : list (list pat
 Definition src_agrees_model (P : params) (metrics : list (Z * Z)) (ros : list (list path)) (crashes : list nat) : bool :=
   src_check P metrics ros crashes (Model.run P metrics ros crashes).
 
-(* names used by Properties.v (string literals do not parse there) *)
-Definition run_epoch_block (P : params) (d : disk) (cn : nat) (ro : list path) (vars : list (string * val)) :=
-  Interp.run (ext16 P d cn ro) ufe_epoch vars.
-Definition run_best_epoch (P : params) (d : disk) (cn : nat) (ro : list path) (c : cache) (b : bool) :=
-  Interp.run (ext_base P d cn ro) tsc_get_best_epoch [("self", self_of P c); ("train_met", VBool b)].
-Definition run_last_epoch (P : params) (d : disk) (cn : nat) (ro : list path) (c : cache) :=
-  Interp.run (ext_base P d cn ro) tsc_get_last_epoch [("self", self_of P c)].
